@@ -28,6 +28,7 @@ func init() {
 }
 
 func runC24(c *core.Ctx) {
+	c24IntegrityChecksItsArgument(c)
 	const pkg = "data/transaction"
 	fn := anchorM(c, pkg, "Transaction", "GetDataForSigning")
 	txT := c.P.Named(pkg, "Transaction")
@@ -329,4 +330,35 @@ func sizeOfBasic(b *types.Basic) int {
 		return 4
 	}
 	return 8
+}
+
+// c24IntegrityChecksItsArgument: InterceptedTransaction.integrity is applied to the outer
+// transaction and to the inner transaction of a relayed one; what it validates before the signature
+// is verified are the fields of the transaction it was GIVEN. A field read through the receiver's
+// own transaction instead leaves that field of an inner transaction unchecked - and the signed
+// bytes of transactions with a malformed receiver coincide (the address encoder returns "" for any
+// wrong length).
+func c24IntegrityChecksItsArgument(c *core.Ctx) {
+	fn := anchorM(c, "process/transaction", "InterceptedTransaction", "integrity")
+	if fn == nil || len(fn.Params) < 2 {
+		return
+	}
+	bad, n := "", 0
+	core.Instrs(fn, func(in ssa.Instruction) {
+		fa, ok := in.(*ssa.FieldAddr)
+		if !ok {
+			return
+		}
+		// base is the *Transaction loaded from the receiver's `tx` field?
+		base, f := core.FieldLoad(fa.X)
+		if f != nil && f.Name() == "tx" && base == ssa.Value(fn.Params[0]) {
+			bad = "inTx.tx." + core.FieldOfAddr(fa).Name() + " at " + c.P.Pos(fa.Pos())
+		}
+		if fa.X == ssa.Value(fn.Params[1]) {
+			n++
+		}
+	})
+	c.Check(bad == "" && n >= 3, "C24/integrity-checks-its-argument", "InterceptedTransaction.integrity", fn.Pos(),
+		"every transaction field validated is a field of the argument",
+		"integrity reads "+bad+" - a field of the intercepted (outer) transaction - while validating the transaction it was given: for the inner transaction of a relayed one that field goes unchecked before the signature is verified over it")
 }
